@@ -1,7 +1,10 @@
 //! Logic related to the Responder, the components in charge of making sure breaches get properly punished.
 
 use std::collections::HashSet;
+#[cfg(not(feature = "verif"))]
 use std::sync::{Arc, Mutex};
+#[cfg(feature = "verif")]
+use crate::verif::sync::{Arc, Mutex};
 
 use bitcoin::hashes::Hash;
 use bitcoin::{consensus, BlockHash};
